@@ -1373,6 +1373,7 @@ class FactoryOracle:
             ev.append((u.t_in, 1, 0))
             ev.append((t_off, -1, 1))
             ev.append((t_out, 0, -1))
+        ev_raw = list(ev)
         ev.sort(key=lambda e: e[0])
         meas = Counter()
         t = min(setup, T)
@@ -1400,6 +1401,28 @@ class FactoryOracle:
                 b += ev[i][2]
                 i += 1
         mon.counters["c17_integrations"] += 1
+        # documented per-thread totals and the mirror attributes of the state totals
+        wc = node._spec.get("wc", 1) or 1
+        tp = tb = 0.0
+        for j in range(0, len(ev_raw), 3):
+            tp += max(0.0, ev_raw[j + 1][0] - ev_raw[j][0])
+            tb += max(0.0, ev_raw[j + 2][0] - ev_raw[j + 1][0])
+        for name, meas_v in (("per_thread_total_time_in_processing_state", tp / wc), ("per_thread_total_time_in_blocked_state", tb / wc)):
+            rep = getattr(node, name, None)
+            if rep is not None:
+                mon.counters["c17_per_thread_totals_checked"] += 1
+                if abs(rep - meas_v) > eps * 10:
+                    mon.violation("C17", "per_thread_time_untruthful", f"machine:{name}-differs-from-measured-activity",
+                                  {"node": L.id, "reported": rep, "measured": meas_v, "T": T, "wc": wc, "blocking": node._spec.get("blocking")})
+        for attr, k in (("total_time_idle", "IDLE_STATE"), ("total_time_setup", "SETUP_STATE"), ("total_time_all_blocked", "ALL_ACTIVE_BLOCKED_STATE"),
+                        ("total_time_all_processing", "ALL_ACTIVE_PROCESSING_STATE"), ("total_time_atleast_one_blocked", "ATLEAST_ONE_BLOCKED_STATE"),
+                        ("total_time_atleast_one_processing", "ATLEAST_ONE_PROCESSING_STATE")):
+            rep = getattr(node, attr, None)
+            if rep is not None:
+                mon.counters["c17_mirror_attributes_checked"] += 1
+                if abs(rep - tt.get(k, 0)) > eps * 10:
+                    mon.violation("C17", "mirror_attribute_differs", f"machine:{attr}-differs-from-stats-{k}",
+                                  {"node": L.id, "attribute": rep, "stats": tt.get(k, 0), "T": T})
         for k in ("IDLE_STATE", "ATLEAST_ONE_PROCESSING_STATE", "ALL_ACTIVE_PROCESSING_STATE", "ATLEAST_ONE_BLOCKED_STATE", "ALL_ACTIVE_BLOCKED_STATE"):
             if abs(tt.get(k, 0) - meas[k]) > eps * 10:
                 mon.violation("C17", "state_time_untruthful", f"machine:{k}-time-differs-from-measured-activity",
